@@ -61,6 +61,7 @@ type fctx struct {
 	notes    []string
 	ghostCalls map[string]int
 	ovfCount int
+	ifaceFactsPending bool
 }
 
 type modLoc struct {
@@ -845,11 +846,30 @@ func (fr *frame) assertType(st *State, v *Value, t types.Type) (*Value, *Term) {
 		panic(unsupported("type assertion on non-interface"))
 	}
 	if _, isIface := t.Underlying().(*types.Interface); isIface {
-		// interface-to-interface: succeeds iff dynamic type implements t: uninterpreted over the tag
+		// interface-to-interface: succeeds iff dynamic type implements t: uninterpreted over the tag,
+		// with the facts go/types can decide: concrete types seen so far, and interface subsumption
+		ti := t.Underlying().(*types.Interface)
+		for id, ct := range typeTagTypes {
+			if _, isI := ct.Underlying().(*types.Interface); isI {
+				continue
+			}
+			st.assume(Eq(mkUF("implements:"+typeName(t), SBool, mkInt(id)), mkBool(types.Implements(ct, ti))))
+		}
+		for n, it := range seenIfaces {
+			if n != typeName(t) && types.Implements(it, ti) {
+				st.assume(Implies(mkUF("implements:"+n, SBool, v.Typ), mkUF("implements:"+typeName(t), SBool, v.Typ)))
+			}
+		}
 		ok := And(Neq(v.Typ, mkInt(0)), mkUF("implements:"+typeName(t), SBool, v.Typ))
 		return &Value{K: VIface, T: t, Typ: v.Typ, S: v.S}, ok
 	}
 	ok := Eq(v.Typ, typeTag(t))
+	// the concrete type must implement every static interface type the value has passed through
+	for n, it := range seenIfaces {
+		if !types.Implements(t, it.Underlying().(*types.Interface)) {
+			st.assume(Not(mkUF("implements:"+n, SBool, typeTag(t))))
+		}
+	}
 	if s, isScalar := scalarSort(t); isScalar {
 		switch s {
 		case SInt:
@@ -859,6 +879,10 @@ func (fr *frame) assertType(st *State, v *Value, t types.Type) (*Value, *Term) {
 		case SBool:
 			return scalar(Neq(v.S, mkInt(0)), t), ok
 		}
+	}
+	switch t.Underlying().(type) {
+	case *types.Slice, *types.Struct:
+		return st.loadObj("box<"+typeName(t)+">", t, v.S), ok
 	}
 	panic(unsupported("type assertion to " + typeName(t)))
 }
@@ -926,6 +950,12 @@ func (fr *frame) coerce(st *State, v *Value, want types.Type) *Value {
 		return v
 	}
 	if _, isIface := want.Underlying().(*types.Interface); isIface {
+		if v.K == VSlice || v.K == VStruct {
+			// composite values are boxed: the interface holds a reference to an immutable copy
+			box := st.newRef("box")
+			st.storeObj("box<"+typeName(v.T)+">", box, v)
+			return &Value{K: VIface, T: want, Typ: typeTag(v.T), S: box}
+		}
 		if v.K != VIface {
 			iv := toIface(v)
 			iv.T = want
@@ -933,6 +963,16 @@ func (fr *frame) coerce(st *State, v *Value, want types.Type) *Value {
 			return iv
 		}
 		if v.T != want {
+			// a non-nil value of static interface type A has a dynamic type implementing A
+			if v.T != nil {
+				if _, isI := v.T.Underlying().(*types.Interface); isI {
+					if _, named := v.T.(*types.Named); named {
+						seenIfaces[typeName(v.T)] = v.T
+						st.assume(Implies(Neq(v.Typ, mkInt(0)), mkUF("implements:"+typeName(v.T), SBool, v.Typ)))
+						fr.fc.ifaceFactsPending = true
+					}
+				}
+			}
 			c := *v
 			c.T = want
 			return &c
